@@ -74,7 +74,18 @@ SameParts(f0, f1, pairs) ==
   \o (IF CharsSame(f0, f1) THEN <<>> ELSE <<"chars">>)
   \o (IF LigSame(f0, f1, pairs) THEN <<>> ELSE <<"ligkern">>)
 
-BadRuns(e) == {j \in 1 .. Len(e.runs) : e.runs[j].o0 # e.runs[j].o1}
+\* CompiledProgram::compile executes a stop word it meets as if it were a step (C05's recorded finding
+\* redirect-phantom-ligature, LigKern.tla deviation PhantomLigature).  A run on which that reading differs
+\* from TeX's in either file says nothing about the conversion and is not compared.
+LKP == INSTANCE LigKern WITH Deviations <- {"PhantomLigature"}, Bug <- ""
+RunWord(r) == IF r.l = 256 THEN <<r.r>> ELSE IF r.r = 256 THEN <<r.l>> ELSE <<r.l, r.r>>
+RunNl(r)   == IF r.l = 256 THEN 0 ELSE 1
+Phantom(P, r) == LK!RefRun(P, {}, RunWord(r), RunNl(r), P.rbc).out # LKP!RefRun(P, {}, RunWord(r), RunNl(r), P.rbc).out
+BadRuns(e) ==
+  LET cand == {j \in 1 .. Len(e.runs) : e.runs[j].o0 # e.runs[j].o1} IN
+  IF cand = {} THEN {}
+  ELSE LET P0 == Prog(e.f0)   P1 == Prog(e.f1) IN
+       {j \in cand : ~Phantom(P0, e.runs[j]) /\ ~Phantom(P1, e.runs[j])}
 
 Strict(e, f0, f1) ==
   LET idem  == e.eq = 1 /\ NWarn(e, "w2") = 0
